@@ -16,6 +16,7 @@ pub use crate::matcher::{Matcher, MatcherControl};
 pub use crate::previewer::Previewer;
 pub use crate::reader::{CommandCollector, Reader, ReaderControl};
 pub use crate::spinlock::SpinLock;
+pub use crate::theme::{ColorTheme, DEFAULT_THEME};
 
 use std::sync::atomic::{AtomicBool, Ordering};
 use std::sync::Mutex;
